@@ -56,8 +56,16 @@ impl DetectProp for C04 {
             1 if idx % 6 == 1 => {
                 // messy but valid UTF-8
                 let n = rng.range(5, 400);
-                let pool: Vec<char> = "☺☹★☆♠♣♥♦§¶†‡•…‰′″‹›€™←↑→↓∂∆∏∑−√∞∫≈≠≤≥◊\u{1}\u{2}\u{7}\u{1b}".chars().collect();
-                let t: String = (0..n).map(|_| *rng.pick(&pool)).collect();
+                let pool: Vec<char> = "☺☹★☆♠♣♥♦§¶†‡•…‰′″‹›€™←↑→↓∂∆∏∑−√∞∫≈≠≤≥◊\u{1}\u{2}\u{7}\u{1b}\u{fffd}\u{feff}\u{fffe}\u{0}".chars().collect();
+                let mut t: String = (0..n).map(|_| *rng.pick(&pool)).collect();
+                if idx % 12 == 7 {
+                    // ordinary text no legacy page can read, with a replacement character / a stray mark inside
+                    let base = *rng.pick(&[TEXTS.iter().find(|(n, _)| *n == "chinese").unwrap().1, TEXTS.iter().find(|(n, _)| *n == "japanese").unwrap().1, TEXTS.iter().find(|(n, _)| *n == "korean").unwrap().1]);
+                    let k = rng.range(30, 600);
+                    let body: Vec<char> = stretch(rng, base, k).chars().collect();
+                    let pos = rng.below(body.len());
+                    t = body[..pos].iter().collect::<String>() + *rng.pick(&["\u{fffd}", "\u{feff}", "\u{fffd}\u{fffd}", "\u{0}"]) + &body[pos..].iter().collect::<String>();
+                }
                 c.bytes = t.into_bytes();
                 c.sett.incl.clear();
                 c.sett.excl.clear();
